@@ -1001,7 +1001,7 @@ func (dsc *dataStoreCommand) dictScanUnlocked(data *redisDict, cursor uint32, pa
 	count int,
 	isMatch func(item *redisDictItem) any) (output respValue) {
 	result := make([]any, 2)
-	matches := make([]any, 0, count)
+	matches := make([]any, 0, min(count, data.count))
 
 	highBit := uint32(len(data.buckets)) // always a power of 2
 	shift := 32 - bitPosition(highBit)
@@ -1218,7 +1218,7 @@ func (dsc *dataStoreCommand) lpop(keyName string, count int) (values [][]byte, e
 		return
 	}
 
-	values = make([][]byte, 0, count)
+	values = make([][]byte, 0, min(count, list.count))
 
 	for ; count > 0; count-- {
 		item := list.head
@@ -1323,7 +1323,7 @@ func (dsc *dataStoreCommand) rpop(keyName string, count int) (values [][]byte, e
 		return
 	}
 
-	values = make([][]byte, 0, count)
+	values = make([][]byte, 0, min(count, list.count))
 
 	for ; count > 0; count-- {
 		item := list.tail
@@ -1571,7 +1571,7 @@ func (dsc *dataStoreCommand) lmpop(keyNames []string, left bool, count int) (out
 	defer dsc.unlock()
 
 	var result []any
-	elements := make([]any, 0, count)
+	elements := []any{}
 
 	for _, keyName := range keyNames {
 		list, err := dsc.getListUnlocked(keyName)
